@@ -3,7 +3,7 @@ from vf.core import Suite, coq_list, coq_bool
 from vf.gen import pick_weighted
 
 ID = "C22"
-THEOREMS = ["C22_walk_covers_live", "C22_prune_keeps_live", "C22_repack_keeps_live"]
+THEOREMS = ["C22_walk_covers_live", "C22_prune_keeps_live", "C22_repack_keeps_live", "C22_walk_fuel_sufficient"]
 MODEL_FILES = ["Gc.v"]
 MODELLED = ("object_walker.go: objectWalker.walkAllRefs, walkObjectTree (blob shortcut Mode|0o755 == Executable, shallow stop, promisor "
             "'missing' set), walkIndex, present; prune.go: Repository.Prune with DeleteObject as handler and OnlyObjectsOlderThan; "
@@ -16,7 +16,7 @@ TRUSTED = [
     "direct oracle: every object live by the python transcription of Spec/Reach (refs, detached HEAD, index) that was readable before is readable with the same type and content digest afterwards, read through a freshly opened storage; on a sample, `git fsck --connectivity-only` reports no new missing object / broken link",
 ]
 ASSUMPTIONS = ["well-formed repository content: tree entries with a file mode name blobs (C22_wf_modes), index entries name blobs (C22_wf_index)",
-               "the fuel given to the walker (number of object ids + 1) suffices: the theorems exclude the out-of-fuel result, the correspondence never observes it"]
+               "none about fuel: C22_walk_fuel_sufficient proves that the fuel used (number of reachable-by-name object ids + 1) never runs out"]
 RULE = ("case = abstract repository (blobs, trees, commits, tags with ids; placement loose/pack0/pack1/both/absent with age flags; refs, symbolic "
         "refs, HEAD symbolic/detached/unborn; shallow roots; index entries incl. staged-only, intent-to-add, gitlink; promisor packs) + "
         "operation (prune/repack, age limit, ref deltas, exclusive access); non-trivial = some object is unreachable or staged-only or absent; "
@@ -203,8 +203,8 @@ class Main(Suite):
     go_cmd = "c22"
     coq_imports = "From GoGit Require Import Model.Gc."
     quick_n = 160
-    thorough_n = 4000
-    coq_chunk = 40
+    thorough_n = 1500
+    coq_chunk = 80
     impl_env = {"TMPDIR": "/dev/shm"} if __import__("os").path.isdir("/dev/shm") else None
 
     def gen(self, rng, n, tier):
